@@ -6,6 +6,7 @@ from vlib.harness import Env, virtual_time
 from vlib.runner import Part, Violation
 
 from pymemcache.client.hash import HashClient
+from pymemcache.exceptions import MemcacheServerError
 
 PROPERTY = "C12"
 LEVEL = "exploration"
@@ -17,7 +18,7 @@ RULE = ("case = 1-5 servers (TCP host:port and UNIX paths, each its own memcache
         "command for key k arrives at place(node names, routing key of k) and nowhere else; a multi-key call "
         "delivers each requested key to exactly one server exactly once; get_many(keys) == {k: get(k)} for present "
         "keys (likewise gets); everything written by set / set_many is found by each single-key reader and mutator. "
-        "Also multi-key calls listing the same bare key under different server keys (each entry must reach its own server; the merged value is unspecified and not judged). The key collection of get_many / gets_many / delete_many is passed as list, tuple, dict view, or a one-shot iterable (iterator, generator, map object). Non-trivial: >= 2 servers each owning >= 1 of the keys and >= 1 multi-key call.")
+        "Also multi-key calls listing the same bare key under different server keys (each entry must reach its own server; the merged value is unspecified and not judged). Epilogue: a set_many in which one server refuses one item (too large for it / out of memory) and stores the rest - the server's error comes back, and afterwards set and get of every key still reach the server placement assigns (a refusal is not a server failure). The key collection of get_many / gets_many / delete_many is passed as list, tuple, dict view, or a one-shot iterable (iterator, generator, map object). Non-trivial: >= 2 servers each owning >= 1 of the keys and >= 1 multi-key call.")
 MANIFEST = {
     "category": "exploration",
     "technique": "Hypothesis-generated server sets, key sets and operation scripts over several memcached models behind one fake network; per-server command logs compared with an independent rendezvous/murmur3 reference, plus metamorphic agreement between multi-key and single-key operations",
@@ -228,6 +229,30 @@ def check(case):
             for n in names:
                 if srv_of[n].store:
                     raise Violation(["delete_many-left-items"], "server %r still holds %r after delete_many of everything; %s" % (n, list(srv_of[n].store)[:4], desc))
+        # epilogue - a mixed outcome inside one multi-key write: the server that owns one of the keys refuses that item
+        # (too large for it) and stores the others. The documented error comes back; no server has failed, so every key still
+        # lives where placement puts it and every later operation reaches that server
+        if case.get("refusal", True) and len(names) >= 1:
+            fresh = ["fresh\x7f%d" % j for j in range(6)]
+            bad = fresh[2]
+            for s in env.servers:
+                s.refuse[wire(bad)] = ("too-large", "oom")[len(keys) % 2]
+            new_cmds()
+            r = env.call(hc.set_many, {k: b"f" for k in fresh})
+            if not (r[0] == "exc" and isinstance(r[1], MemcacheServerError)):
+                raise Violation(["refused-item", "outcome"], "set_many with one item the server refuses returned %r, expected the server's error; %s" % (r, desc))
+            new_cmds()
+            for k in fresh + [kk for kk in keys[:4]]:
+                if k == bad:
+                    continue
+                r = env.call(hc.set, k, b"after")
+                if r != ("ok", True):
+                    raise Violation(["refused-item", "later-set"], "after a set_many in which %r refused one item, set(%r) returned %r; %s" % (owner(bad), k, r, desc))
+                expect_only_at(k, "set after a refused item")
+                r = env.call(hc.get, k)
+                if r != ("ok", b"after"):
+                    raise Violation(["refused-item", "later-get"], "after a set_many in which %r refused one item, get(%r) returned %r; %s" % (owner(bad), k, r, desc))
+                expect_only_at(k, "get after a refused item")
         for s in env.servers:
             if s.errors:
                 raise Violation(["server-parse-errors"], "server logged %r; %s" % (s.errors[:2], desc))
